@@ -9,19 +9,31 @@
 (*   ValEq / Bool       equality and truthiness "as the Python value it is"*)
 (* All of them are functions of the instance alone: nothing else is state. *)
 (***************************************************************************)
-EXTENDS Codec
+EXTENDS UnionOps
 
 Zero(t, m) == ZeroOf(t, m)
 
 \* positional arguments fill the fields in order, keyword arguments by field index; the rest keeps the zero value.
 \* An argument that is None ([k |-> "none"]) is an unspecified one, positional or keyword.
 IsNone(a) == a = [k |-> "none"]
-Init(t, m, args, kwargs) ==
+StructInit(t, m, args, kwargs) ==
   LET z == Zero(t, m)
       KwIdx == {kwargs[j][1] : j \in 1..Len(kwargs)}
       KwVal(i) == kwargs[CHOOSE j \in 1..Len(kwargs) : kwargs[j][1] = i][2]
   IN [z EXCEPT !.vals = [i \in 1..Len(z.vals) |-> IF i <= Len(args) /\ ~IsNone(args[i]) THEN args[i]
                                               ELSE IF i > Len(args) /\ i \in KwIdx /\ ~IsNone(KwVal(i)) THEN KwVal(i) ELSE z.vals[i]]]
+\* A (fixed-size) union is one buffer: constructing it from a value = assigning that member on the all-zero union, which
+\* makes every member show the new bytes (UnionOps.Upd).  The FIRST argument is the one the union is built from, and for a
+\* union None is a given value - the member's zero - not an unspecified one: the test suite pins U(None, 1) == all zero.
+\* What several values mean the statement of C17 does not say (which assignment would come last?); the implementation's
+\* answer "the first, the others are dropped" is modelled as it is.
+UnionInit(t, m, args, kwargs) ==
+  LET z == Zero(t, m)
+      Val(i, a) == IF IsNone(a) THEN ZeroOf(t.fields[i].type, m) ELSE a
+  IN IF Len(args) > 0 THEN Upd(t, m, z, << 1 >>, Val(1, args[1]), << >>, FALSE)
+     ELSE IF Len(kwargs) > 0 THEN Upd(t, m, z, << kwargs[1][1] >>, Val(kwargs[1][1], kwargs[1][2]), << >>, FALSE)
+     ELSE z
+Init(t, m, args, kwargs) == IF t.k = "union" THEN UnionInit(t, m, args, kwargs) ELSE StructInit(t, m, args, kwargs)
 
 \* path element: [k |-> "f", i |-> field index]  or  [k |-> "e", i |-> element index (1-based)]
 RECURSIVE UpdPath(_, _, _)
